@@ -70,3 +70,18 @@ Theorem C08_write_fits :
   (off + zlen vals <= zlen (rf_write f off vals))%Z /\ (zlen f <= zlen (rf_write f off vals))%Z.
 Proof. exact write_fits. Qed.
 Print Assumptions C08_write_fits.
+
+Theorem C08_never_stuck :
+  forall ver h, (zlen ver < 8)%Z -> run_fits (init_state ver) h ->
+  exists m d, run (init_state ver) h = Some (m, d) /\ exists m', reopen d = Some m' /\ m_entries m' = m_entries m.
+Proof. exact never_stuck. Qed.
+Print Assumptions C08_never_stuck.
+
+Theorem C08_commit_ops_keep_entries :
+  forall ver h m d o j, (zlen ver < 8)%Z ->
+  run_fits (init_state ver) h -> run (init_state ver) h = Some (m, d) ->
+  (o = OTimer \/ exists v, o = OSetCommit v) ->
+  exists m', reopen (apply_prims d (firstn j (snd (exec m d o)))) = Some m' /\
+    m_entries m' = m_entries m /\ m_cur m' = m_cur m.
+Proof. exact commit_ops_keep_entries. Qed.
+Print Assumptions C08_commit_ops_keep_entries.
